@@ -223,6 +223,7 @@ def run(ctx: Ctx):
     run_training(ctx)
     run_fidelity_executor(ctx)
     run_real_pools(ctx)
+    run_real_fit(ctx)
 
 
 def run_fidelity_executor(ctx: Ctx):
@@ -269,3 +270,33 @@ def run_fidelity_executor(ctx: Ctx):
         if states[0][0]['data'] != states[1][0]['data'] or states[0][0]['active'] != states[1][0]['active']:
             ctx.violate('C15:training-data-depends-on-executor', 'training data stored by activate_index(executor=...) differ from the serial run '
                         '(same activations)', case)
+
+
+def run_real_fit(ctx: Ctx):
+    """training through a REAL thread pool (8 workers) versus no executor: overlapping look-ahead predictions on one component must not
+    interfere (supporting evidence: real interleavings cannot be enumerated)"""
+    import random
+    rng = ctx.rng
+    for n in range(ctx.pick(3, 12)):
+        seed_sys = rng.randint(0, 10 ** 6)
+        out = []
+        for mode in ('serial', 'threads'):
+            r2 = random.Random(seed_sys)
+            system, spec = systems.random_chain_system(r2, ncomp=r2.randint(1, 2), with_alpha=False, name=f"rt{n}", max_level=3)
+            np.random.seed(ctx.seed * 19 + n)
+            if mode == 'serial':
+                system.fit(max_iter=8, num_refine=4000, max_tol=-1.0)
+            else:
+                with ThreadPoolExecutor(max_workers=8) as pool:
+                    system.fit(max_iter=8, num_refine=4000, max_tol=-1.0, executor=pool)
+            st = systems.system_state(system)
+            for h in st['history']:
+                h['added_error'] = round(h['added_error'], 9) if h['added_error'] == h['added_error'] else 'nan'
+            out.append(st)
+        case = {'real_pool_fit': n, 'system_seed': seed_sys}
+        ctx.case(case, nontrivial=True, kind='thread-pool-fit')
+        if systems.digest(out[0]) != systems.digest(out[1]):
+            same_hist = [(h['component'], h['alpha'], h['beta']) for h in out[0]['history']] == [(h['component'], h['alpha'], h['beta']) for h in out[1]['history']]
+            diff = [f'{c}.{k}' for c in out[0]['components'] for k in out[0]['components'][c] if out[0]['components'][c][k] != out[1]['components'][c].get(k)]
+            ctx.violate('C15:training-depends-on-executor', f'fit() through an 8-thread pool differs from serial training: same refinement choices: {same_hist}; '
+                        f'differing fields: {diff[:6]}', case)
